@@ -47,10 +47,12 @@ func init() {
 }
 
 type c05Hier struct {
-	reader string
-	decls  []*ref.HDecl
-	all    []*ref.HDecl
-	defMM  map[*ref.HDecl]bool // min/max omitted from the schema (format defaults apply)
+	reader   string
+	decls    []*ref.HDecl
+	all      []*ref.HDecl
+	defMM    map[*ref.HDecl]bool // min/max omitted from the schema (format defaults apply)
+	maxDepth int                 // declarations may have children down to this depth (0: 3)
+	chain    bool                // prefer a group as the first member of a group (chains of nested groups)
 }
 
 var c05Tags = []string{"A", "B", "C", "D"}
@@ -62,7 +64,11 @@ func (h *c05Hier) gen(r *core.Rand, depth int, budget *int, gcount *int) []*ref.
 		*budget--
 		d := &ref.HDecl{}
 		h.all = append(h.all, d)
-		isGroup := depth < 3 && *budget > 0 && r.Chance(1, 3)
+		maxDepth := h.maxDepth
+		if maxDepth == 0 {
+			maxDepth = 3
+		}
+		isGroup := depth < maxDepth && *budget > 0 && (r.Chance(1, 3) || (h.chain && i == 0 && depth > 1 && r.Chance(1, 2)))
 		if isGroup {
 			*gcount++
 			d.Group = true
@@ -84,7 +90,7 @@ func (h *c05Hier) gen(r *core.Rand, depth int, budget *int, gcount *int) []*ref.
 					d.Kind, d.Footer = "hf", strings.ToLower(d.Tag)
 				}
 			}
-			if depth < 3 && *budget > 0 && r.Chance(1, 4) {
+			if depth < maxDepth && *budget > 0 && r.Chance(1, 4) {
 				d.Children = h.gen(r, depth+1, budget, gcount)
 			}
 		}
@@ -111,6 +117,11 @@ func (h *c05Hier) gen(r *core.Rand, depth int, budget *int, gcount *int) []*ref.
 func genHier(r *core.Rand, reader string) *c05Hier {
 	h := &c05Hier{reader: reader, defMM: map[*ref.HDecl]bool{}}
 	budget := r.Range(1, 6)
+	if r.Chance(1, 4) {
+		// deeper hierarchies: chains of three and more nested groups
+		h.maxDepth, h.chain = r.Range(4, 6), r.Bool()
+		budget = r.Range(4, 10)
+	}
 	g := 0
 	h.decls = h.gen(r, 1, &budget, &g)
 	h.all[r.Intn(len(h.all))].Target = true
